@@ -198,7 +198,7 @@ def _r3(ctx):
               found="; ".join(unparse(n.ast) for n in inloop) or "no in-loop definition")
 
 
-@rule("C16", "R4", "NUM", "the log-determinant in the BIC cannot under/overflow for a positive-definite MRF", floor=1)
+@rule("C16", "R4", "NUM", "the log-determinant in the BIC cannot under/overflow for a positive-definite MRF", floor=1, evidence=True)
 def r4(ctx):
     fi, b, rt, m = _parts(ctx.ana)
     found = False
@@ -225,7 +225,7 @@ def r5(ctx):
     ctx.sub(c20.r2, only=("get:",))   # a failed task is never papered over by keeping the previous MRF
 
 
-@rule("C16", "R6", "OWN", "the metric only reads the model it is given")
+@rule("C16", "R6", "OWN", "the metric only reads the model it is given", evidence=True)
 def r_readonly(ctx):
     from .c06 import readers_do_not_write
     readers_do_not_write(ctx, ["cluster_metrics.bayesian_information_criterion" if "C16" == "C16" else "cluster_metrics.calinski_harabasz_index"])
